@@ -125,13 +125,13 @@ static void prune_file(const char* path, const char* tdmp) {
                 else if (type == CARQUET_PHYSICAL_BYTE_ARRAY) { if (L > 0) { probes[np] = v_exact_copy(v, L - 1); pl[np++] = L - 1; } uint8_t* w = v_exact(L + 1); memcpy(w, v, L); w[L] = 0; probes[np] = w; pl[np++] = L + 1; }
                 else { uint8_t* w = v_exact_copy(v, L); if (L) w[L - 1] ^= 1; probes[np] = w; pl[np++] = L; } } }
         /* fixed probes: both zeros, infinities and the type limits (orderings that treat -0.0 < +0.0, or differences that wrap, show here) */
-        if (type == CARQUET_PHYSICAL_FLOAT) { static const float FP[] = {0.0f, -0.0f, INFINITY, -INFINITY, 3.4028234664e38f, -3.4028234664e38f, 1.401298464e-45f}; for (int q = 0; q < 7 && np < 390; q++) { probes[np] = v_exact_copy(&FP[q], 4); pl[np++] = 4; } }
-        else if (type == CARQUET_PHYSICAL_DOUBLE) { static const double DP[] = {0.0, -0.0, INFINITY, -INFINITY, 1.7976931348623157e308, -1.7976931348623157e308, 4.9406564584124654e-324}; for (int q = 0; q < 7 && np < 390; q++) { probes[np] = v_exact_copy(&DP[q], 8); pl[np++] = 8; } }
+        if (type == CARQUET_PHYSICAL_FLOAT) { static const float FP[] = {0.0f, -0.0f, INFINITY, -INFINITY, 3.4028234664e38f, -3.4028234664e38f, 1.401298464e-45f, NAN}; for (int q = 0; q < 8 && np < 390; q++) { probes[np] = v_exact_copy(&FP[q], 4); pl[np++] = 4; } }
+        else if (type == CARQUET_PHYSICAL_DOUBLE) { static const double DP[] = {0.0, -0.0, INFINITY, -INFINITY, 1.7976931348623157e308, -1.7976931348623157e308, 4.9406564584124654e-324, NAN}; for (int q = 0; q < 8 && np < 390; q++) { probes[np] = v_exact_copy(&DP[q], 8); pl[np++] = 8; } }
         else if (type == CARQUET_PHYSICAL_INT32) { static const int32_t IP[] = {0, -1, 1, INT32_MIN, INT32_MAX, INT32_MIN + 1, INT32_MAX - 1}; for (int q = 0; q < 7 && np < 390; q++) { probes[np] = v_exact_copy(&IP[q], 4); pl[np++] = 4; } }
         else if (type == CARQUET_PHYSICAL_INT64) { static const int64_t LP[] = {0, -1, 1, INT64_MIN, INT64_MAX, (int64_t)INT32_MAX + 1, (int64_t)INT32_MIN - 1}; for (int q = 0; q < 7 && np < 390; q++) { probes[np] = v_exact_copy(&LP[q], 8); pl[np++] = 8; } }
         else if (type == CARQUET_PHYSICAL_BYTE_ARRAY && np < 390) { probes[np] = v_exact(0); pl[np++] = 0; }
         for (int p = 0; p < np; p++) for (int op = 0; op < 6; op++) { int* truth = calloc((size_t)ng + 1, sizeof(int)); int* says = calloc((size_t)ng + 1, sizeof(int)); int nsay = 0;
-            for (int g = 0; g < ng; g++) { const tchunk_t* k = &t->rg[g][c]; for (int64_t i = 0; i < k->nvals && !truth[g]; i++) { const uint8_t* v = type == CARQUET_PHYSICAL_BYTE_ARRAY ? k->ba_ptr[i] : k->fixed + (size_t)i * es; size_t L = type == CARQUET_PHYSICAL_BYTE_ARRAY ? k->ba_len[i] : es; if (op_holds(op, tcmp(type, v, L, probes[p], pl[p]))) truth[g] = 1; }
+            for (int g = 0; g < ng; g++) { const tchunk_t* k = &t->rg[g][c]; for (int64_t i = 0; i < k->nvals && !truth[g]; i++) { const uint8_t* v = type == CARQUET_PHYSICAL_BYTE_ARRAY ? k->ba_ptr[i] : k->fixed + (size_t)i * es; size_t L = type == CARQUET_PHYSICAL_BYTE_ARRAY ? k->ba_len[i] : es; if (is_nan(type, v) || is_nan(type, probes[p])) continue;   /* what a predicate means for NaN is left open: only rows and probes that are numbers decide */ if (op_holds(op, tcmp(type, v, L, probes[p], pl[p]))) truth[g] = 1; }
                 bool mm = false; carquet_status_t st = carquet_reader_row_group_matches(o.rd, g, c, (carquet_compare_op_t)op, probes[p], (int32_t)pl[p], &mm); says[g] = (st != CARQUET_OK) || mm; nsay += says[g];
                 carquet_column_statistics_t cs; memset(&cs, 0, sizeof cs); (void)carquet_reader_column_statistics(o.rd, g, c, &cs);
                 if (truth[g] && !says[g]) { snprintf(key, sizeof key, "prune:row-group-with-matching-row-excluded:%s:%s", TN[type], OPN[op]); v_viol(key, "%s rg=%d col=%d", bn, g, c); }
